@@ -184,3 +184,20 @@ func init() {
 	checks["C15"] = checkC15
 	replayers["C15"] = replaySemCase(&SemOpts{Strict: true, SpliceMeta: true})
 }
+
+func checkC16(c *Ctx) {
+	o := &SemOpts{}
+	c.runSemFamily("FamProducers", "FamProducers_quick.cfg", o, 60*time.Minute)
+	if c.Tier == "thorough" {
+		// the number-printing family also compares literal / arithmetic / bitwise producers of many magnitudes
+		c.runSemFamily("FamPrint", "FamPrint_thorough.cfg", &SemOpts{Strict: true, SpliceMeta: true}, 60*time.Minute)
+	}
+	c.cov("exhaustive", true)
+	c.cov("rule", "FamProducers: every one-hole context (each operand position of each operator with a number and with a string partner, unary operators, if / while / or / and, index, index store, key argument, each built-in argument, printed alone / in an array / in an object, stored, callee, argument, return value) x every value (strings: empty, alphabetic, numeric-looking in both scripts, key name; numbers 0, 1, 3, 7, 2^20) x every producer (literal, concatenation, object property, property store, array element, function result, input; literal, arithmetic, &, |0, >>, round, abs, function, min, len, <<, **); all producers must behave as the single specification value does")
+	semAssumptions(c)
+}
+
+func init() {
+	checks["C16"] = checkC16
+	replayers["C16"] = replaySemCase(&SemOpts{})
+}
